@@ -222,7 +222,7 @@ def rule_predicates(ctx) -> None:
             except ordereval.Unsupported as e:
                 raise AnalysisError(f"C14.predicates: init_offset setter left the fragment: {e}")
             n += 1
-            ups = [o for o in offs if o >= off or o < 0]
+            ups = [o for o in offs if o >= off]  # documented: the closest segment START at or above; floating segments (-1) have no static start
             if off < 0 or (off > 0 and not ups):
                 want: Any = "raise"
                 got: Any = out.kind
